@@ -291,6 +291,10 @@ def step (st : St) (toks : List String) : St × String :=
     match (kv? "in" rest).bind natList?, (kv? "got" rest).bind natList? with
     | some inp, some got => (st, if uniqExact inp got then "true" else "false")
     | _, _ => (st, "bad-op")
+  | ["cleanup", _, _] =>
+    -- which of the two free orders the harness chose for the clean-up goroutines of stopped
+    -- informers (before / after the registration of the new ones): no model state depends on it
+    (st, "ok")
   | ["stop", id] =>
     -- StopMonitor: the binding is gone (its snapshot is not observed any more); the other monitors
     -- of the case are untouched — that is the claim the `oracle snap` lines of the survivors test
